@@ -3,6 +3,7 @@ import ScriggoV.Model.GoCopy
 import ScriggoV.Gen.GoCopy
 import ScriggoV.Lemmas.ChanSeq
 import ScriggoV.Model.CaseBuf
+import ScriggoV.Lemmas.GoFlag
 /-! # C14 — goroutine and channel programs agree with gc under every schedule
 
 Property theorems only; the models are in `Model/GoStmt.lean`.
@@ -417,3 +418,85 @@ example : (policyOf opReceive opSend opSelect
   decide
 
 end ScriggoV.CaseBuf
+
+/-! ## `go` on a native function: the flag is consumed by the call of the go statement
+
+OpGo tells the call instruction behind it, through the flag `startNativeGoroutine` of `run`, to
+start a native callee with `go`. `Model/GoFlag.lean`: the instructions of an activation in
+sequence under a policy (who sets, who resets the flag) against Go's specification; the policy of
+run.go is read off the extracted skeletons of OpGo and of every call instruction. -/
+namespace ScriggoV.GoFlag
+open ScriggoV.Gen.GoFlag
+
+/-- **C14, only the call of a go statement is a goroutine.** For every instruction sequence in
+which each OpGo is followed by its call instruction — the callee native (called directly or through
+a function value) or a Scriggo function (declared, or a function value), the other calls of the
+activation in any of the five forms —: the call behind an OpGo is started as a goroutine, every
+other call is an ordinary call, and the flag is set at a call instruction only if that call is
+the native call of a go statement (`go_flag_clear_outside_go`). -/
+theorem go_flag_clear_outside_go (code : List Instr) (h : wf code = true) :
+    run Policy.good 0 false .none code = spec 0 false code :=
+  run_good_inv code 0 false .none false ⟨rfl, rfl⟩ h
+
+-- non-vacuity: go on a native function value, then calls of every form
+example : wf [.go, .call .indirectNative, .call .native, .other, .go, .call .indirectFunc, .call .indirectNative,
+    .go, .call .native, .call .func, .call .macroCall] = true := by decide
+
+/-- The regression this was written after: OpCallIndirect does not reset the flag in its native
+branch. After `go f(…)` with `f` a function value that holds a native function, the next native
+call of the activation — two instructions later — is started as a goroutine too (its results are
+never written). -/
+theorem missing_reset_starts_the_next_native_call_as_goroutine :
+    run { Policy.good with indirectNativeResets := false } 0 false .none
+        [.go, .call .indirectNative, .other, .call .native]
+      = [⟨1, .indirectNative, true, true⟩, ⟨3, .native, true, true⟩] ∧
+    spec 0 false [.go, .call .indirectNative, .other, .call .native]
+      = [⟨1, .indirectNative, true, true⟩, ⟨3, .native, false, false⟩] := by
+  decide
+
+/-- every part of the policy is needed: a policy that differs from `good` anywhere has a
+well-formed instruction sequence that it runs otherwise than Go does -/
+theorem every_flag_rule_is_needed (pol : Policy) (h : pol ≠ Policy.good) :
+    ∃ code, wf code = true ∧ run pol 0 false .none code ≠ spec 0 false code := by
+  obtain ⟨g, n, i, s⟩ := pol
+  cases g with
+  | false => exact ⟨[.go, .call .native], by decide, by cases n <;> cases i <;> cases s <;> decide⟩
+  | true =>
+  cases n with
+  | false => exact ⟨[.go, .call .native, .call .native], by decide, by cases i <;> cases s <;> decide⟩
+  | true =>
+  cases i with
+  | false => exact ⟨[.go, .call .indirectNative, .call .native], by decide, by cases s <;> decide⟩
+  | true =>
+  cases s with
+  | false => exact ⟨[.call .func, .call .native], by decide, by decide⟩
+  | true => exact absurd rfl h
+
+/-- **generated fact** `call_instructions_consume_go_flag`: along every path through the clause,
+OpCallNative and the native branch of OpCallIndirect hand the flag to vm.callNative exactly once and
+leave it reset; OpCallFunc, OpCallMacro and the Scriggo branch of OpCallIndirect neither read nor
+write it; OpGo sets it when startGoroutine reports a native callee and leaves it otherwise -/
+theorem call_instructions_consume_go_flag : policyOfCode = Policy.good := by decide
+
+/-- **generated fact** `go_flag_is_local_to_run_and_its_call_clauses`: the flag is a bool local of
+`run` declared before the instruction loop, mentioned by no other clause than OpGo, OpCallNative
+and OpCallIndirect, and `vm.callNative` / `vm.startGoroutine` are called by no other clause -/
+theorem go_flag_is_local_to_run_and_its_call_clauses :
+    flagDecl = "var startNativeGoroutine bool" ∧ flagOutsideSwitch = 1 ∧
+    flagClauses = ["OpCallIndirect", "OpCallNative", "OpGo"] := by decide
+
+/-- **generated fact** `start_goroutine_reports_native_and_skips_scriggo`: startGoroutine returns
+true — without moving the program counter, so that the call instruction runs next — for a native
+function value and for every call instruction other than OpCallFunc / OpCallIndirect, and false —
+after moving the program counter past the call instruction and its stack shift — when it has
+started a Scriggo function itself -/
+theorem start_goroutine_reports_native_and_skips_scriggo :
+    startGoroutineReturns = [("case OpCallIndirect; if f.fn == nil then", "true", 0), ("default", "true", 0),
+      ("", "false", 2)] := by decide
+
+/-- run.go's instructions start exactly the calls of go statements as goroutines -/
+theorem go_flag_clear_outside_go_code (code : List Instr) (h : wf code = true) :
+    run policyOfCode 0 false .none code = spec 0 false code := by
+  rw [call_instructions_consume_go_flag]; exact go_flag_clear_outside_go code h
+
+end ScriggoV.GoFlag
